@@ -5,6 +5,7 @@ TRUSTED_COMMON = [
     'Coq 8.16.1 kernel (coqc; vm_compute used, native_compute not used); no Axiom/Parameter/Admitted in the development (scanned on every run)',
     'extraction: ExtrOcamlBasic, ExtrOcamlString, ExtrOcamlZBigInt (all directives as shipped in /usr/lib/ocaml/coq/theories/extraction) + Extract Constant Z.land/Z.lor/Z.lxor => Big_int_Z.and/or/xor_big_int; OCaml 4.13.1 + zarith',
     'correspondence harness: harness/impl_driver.c + ops_*.h (C side, single translation unit including /repo/src/secp256k1.c), harness/driver_fast.ml, tools/*.py; it samples (generated cases), the theorems do not',
+    'kernel obligations of every check: tools/c2coq.py (translator of straight-line C, clang 14 JSON AST) + Kernel/CSem.v (LP64 integer semantics) + Kernel/Bind.v; the limb-level theorems are about the translator output regenerated from the working tree; the translator is validated against compiled code by ./check C05',
     'modelled, not verified: compiler, libc memcpy/memset/malloc, x86-64 inline assembly of scalar_4x64 (asm and portable C builds are compared differentially)',
 ]
 def core_runners(chk, flags=(), name='impl'):
